@@ -211,6 +211,9 @@ fn decode_seq(mut code: usize, len: usize, alpha: &[Sym]) -> Vec<Sym> {
 pub fn check(prop: &str, tier: &str) -> i32 {
     let thorough = tier == "thorough";
     let mut run = Run::new(prop, tier, "exploration");
+    // across threads: every interleaving of small concurrent scenarios on one shared instance
+    // (first, while this process is small and single-threaded: executions are forked)
+    crate::sched::freshness_part(&mut run);
     let b = w1();
     let base_msk = ser(&b.msk);
     let base_mpk = ser(&b.mpk);
@@ -338,7 +341,5 @@ pub fn check(prop: &str, tier: &str) -> i32 {
     if fields == 0 {
         machinery("seqfresh driver is vacuous");
     }
-    // across threads: every interleaving of small concurrent scenarios on one shared instance
-    crate::sched::freshness_part(&mut run);
     run.finish()
 }
